@@ -4,10 +4,12 @@
 //!   C18 ser <c|u> <ty> <val>            => <hex bytes> <serialized_size>
 //!   C18 de <tag> <c|u><y|n> <ty> <hex>  => ok <val> <consumed> | err:<class> | panic | abort | timeout
 //!                                          | ok-huge <len> <consumed>
-//! Every `de` runs in a CHILD PROCESS (this binary re-executed as `c18 __child` through
-//! `sh -c 'ulimit -v 1048576; exec …'`, i.e. RLIMIT_AS = 1 GiB) with a 1 s per-case watchdog, so
-//! that an allocation abort (SIGABRT) is reported as `abort` and a runaway loop as `timeout`
-//! instead of killing the harness.  The limits are mirrored in DrvC18.lean (`limits`).
+//! A `de` whose input contains a length-like 8-byte window larger than the rest of the input (+ slack),
+//! or whose type has zero-width elements, runs in a CHILD PROCESS (this binary re-executed as
+//! `c18 __child` through `sh -c 'ulimit -v 1048576; exec …'`, i.e. RLIMIT_AS = 1 GiB) with a 0.4 s
+//! per-case watchdog, so that an allocation abort (SIGABRT) is reported as `abort` and a runaway loop
+//! as `timeout` instead of killing the harness; all other `de` lines run in-process under
+//! `catch_unwind`.  The limits are mirrored in DrvC18.lean (`limits`).
 #![allow(dead_code, deprecated)]
 use ark_serialize::*;
 use arkharness::util::*;
@@ -22,7 +24,11 @@ use std::sync::atomic::{AtomicU64, Ordering as AO};
 use std::sync::Arc;
 
 const MEM_LIMIT_KIB: u64 = 1 << 20; // ulimit -v, = 2^30 bytes  (DrvC18.limits.mem)
-const WATCHDOG_MS: u64 = 1000;
+const WATCHDOG_MS: u64 = 400;
+/// a `de` line goes to the child process only if some 8-byte window of the input, read as a
+/// little-endian length, exceeds the bytes that follow it by more than this slack (or the type has
+/// zero-width elements); everything else runs in-process under `catch_unwind`
+const CHILD_SLACK: u64 = 4096;
 const HUGE_LEN: u64 = 1 << 16; // DrvC18.limits.steps
 
 // ------------------------------------------------------------------ universal values
@@ -625,12 +631,17 @@ const BAD_UTF8: [&[u8]; 22] = [&[0xff], &[0x80], &[0xbf], &[0xc0, 0x80], &[0xc1,
     &[0xf4, 0x90, 0x80, 0x80], &[0xf5, 0x80, 0x80, 0x80], &[0xf1, 0x80, 0x80], &[0xf8, 0x88, 0x80, 0x80, 0x80], &[0x61, 0xc2], &[0x61, 0xe1, 0x80, 0xe1],
     &[0xfe]];
 
-struct Ctx<'a> { out: &'a mut Out, run: &'a mut Runner, rng: Rng, thorough: bool }
+fn risky(b: &[u8]) -> bool {
+    let n = b.len();
+    if n < 8 { return false; }
+    (0..=n - 8).any(|p| u64::from_le_bytes(b[p..p + 8].try_into().unwrap()) > (n - p - 8) as u64 + CHILD_SLACK)
+}
+struct Ctx<'a> { out: &'a mut Out, run: &'a mut Runner, rng: Rng, thorough: bool, in_child: u64 }
 impl<'a> Ctx<'a> {
     fn de(&mut self, idx: usize, e: &Entry, tag: &str, c: Compress, v: Validate, bytes: &[u8]) {
         let m = mode_str(c, v);
         let h = hexs(bytes);
-        let r = self.run.de(idx, m, &h);
+        let r = if e.zw || risky(bytes) { self.in_child += 1; self.run.de(idx, m, &h) } else { (e.de.unwrap())(bytes, c, v) };
         self.out.line(&format!("C18 de {} {} {} {}", tag, m, e.ty, h), &r);
     }
 }
@@ -780,7 +791,7 @@ fn fixed_streams(cx: &mut Ctx, reg: &[Entry]) {
     }
     // containers of zero-width elements with a huge length (few: each may cost the watchdog time)
     for (ty, lens) in [(<Vec<()>>::ty(), vec![1u64 << 40, u64::MAX]), (<VecDeque<PhantomData<u8>>>::ty(), vec![1u64 << 40]),
-                       (<LinkedList<()>>::ty(), vec![0x7fff_ffff, 0x8000_0000]), (<BTreeSet<()>>::ty(), vec![1u64 << 61]),
+                       (<LinkedList<()>>::ty(), vec![1u64 << 40]), (<BTreeSet<()>>::ty(), vec![1u64 << 61]),
                        (<Vec<[u8; 0]>>::ty(), vec![1u64 << 61]), (<Vec<UnitS>>::ty(), vec![1u64 << 40]), (<Vec<Vec<()>>>::ty(), vec![1u64 << 40]), (<BTreeMap<(), ()>>::ty(), vec![u64::MAX])] {
         let i = find(&ty);
         for l in lens { cx.de(i, &reg[i], "z", Compress::Yes, Validate::Yes, &l.to_le_bytes()); }
@@ -793,7 +804,7 @@ fn main() {
     let reg = registry();
     let mut out = Out::new();
     let mut run = Runner::new();
-    let mut cx = Ctx { out: &mut out, run: &mut run, rng: Rng::new(a.seed ^ 0xC18), thorough: a.thorough };
+    let mut cx = Ctx { out: &mut out, run: &mut run, rng: Rng::new(a.seed ^ 0xC18), thorough: a.thorough, in_child: 0 };
     if a.only.as_deref() != Some("gen") { fixed_streams(&mut cx, &reg); }
     let nvals = if a.thorough { 12 } else { 5 };
     for (idx, e) in reg.iter().enumerate() {
@@ -814,6 +825,7 @@ fn main() {
             }
         }
     }
-    eprintln!("c18: {} lines, {} child processes", out.count, run.spawned);
+    let in_child = cx.in_child;
+    eprintln!("c18: {} lines, {} run in the child, {} child processes", out.count, in_child, run.spawned);
     out.flush();
 }
